@@ -685,6 +685,18 @@ def corpus_check(tier: str, seed: int) -> dict:
               # more digits than CPython's int() converts (4300): found by a round-4 seeding agent in the unmodified tree
               'a = { "x"{' + "1" * 5000 + "} }", 'a = { "x"{1,' + "0" * 5000 + "2} }", "a = { PEEK[" + "1" * 5000 + "..] }", "a = { PEEK[..-" + "1" * 5000 + "] }"]:
         run(t, "hand")
+    # the same grammars with CRLF line ends, and multi-line texts whose error sits on the last line (round-6 seed C11d: a line
+    # count that adds one character per line break points past the last line of a CRLF text)
+    multi = ['a = { "x" }\nb = { "y" }\nc = { "z" ', '// one\n// two\n// three\na = { "\\q', 'a = { "x" }\n\n\nb = ', '/* c\n c */\na = { b ~ }\n', 'a = {\n  "x" ~\n  \'a\'..\n}\n', 'a = { "x" }\n  \t b', "a = { \"x\" }\n\u00e9"]
+    for t in multi:
+        for nl in ("\n", "\r\n", "\r"):
+            for tail in ("", nl, nl + nl):
+                run(t.replace("\n", nl) + tail, "multi-line")
+    for g in valid:
+        if len(g) < 400:
+            gg = g.replace("\n", "\r\n")
+            for i in range(0, len(gg) + 1):
+                run(gg[:i], "truncation (CRLF)")
     for g in valid:
         step = 1 if len(g) < 400 else (len(g) // (150 if tier == "quick" else 1500) or 1)
         for i in range(0, len(g), step):
@@ -703,7 +715,7 @@ def corpus_check(tier: str, seed: int) -> dict:
     for _ in range(2500 if tier == "quick" else 30000):
         run("".join(rnd.choice(ALPHABET) for _ in range(rnd.randint(1, 14))), "token soup")
     return {"name": "c11-corpus", "kind": "bounded stand-in (Parser.from_grammar end to end on a corpus)", "evaluations": n,
-            "bound": f"hand-written edge cases, 270 rule-reference cycles, lone surrogates, 5 deeply nested texts, every truncation of {len(valid)} valid grammars (sampled for long files), single-character mutations, token soups up to 14 tokens",
+            "bound": f"hand-written edge cases, 270 rule-reference cycles, lone surrogates, 5 deeply nested texts, multi-line texts with LF / CRLF / CR line ends, every truncation of {len(valid)} valid grammars (sampled for long files), single-character mutations, token soups up to 14 tokens",
             "violation": bool(bad), "details": bad[:3], "known_lines": known_lines}
 
 
